@@ -6,7 +6,7 @@
 set -u
 export GOFLAGS=-mod=mod GOPROXY=off GOSUMDB=off GOTOOLCHAIN=local
 prop=$1; n=$2; pkg=$3; run=${4:-.}
-src=/tmp/out-$prop/$n; id=$prop-$n
+id=$prop-$n; src=${SEED_SRC:-/tmp/out-$prop/$n}; [ -f $src/patch.diff ] || src=/verif/seeded/$id
 [ -f $src/patch.diff ] || { echo "no patch"; exit 1; }
 S=/tmp/seedrepo-$$; rm -rf $S; rsync -a --exclude .git /repo/ $S/
 demo() { # $1 = label
@@ -28,7 +28,8 @@ for p in $(jq -r '.checks[].property_id' /verif/MANIFEST.json); do
 done
 [ -n "${SEED_SCRATCH:-}" ] || git -C /repo checkout -- .
 echo "caught_by:${caught:- NONE}"
-d=/verif/seeded/$id; mkdir -p $d; cp $src/patch.diff $d/; cp -r $src/demo_test.go $src/demo $d/ 2>/dev/null; cp $src/README.md $d/AGENT_README.md 2>/dev/null
-jq -n --arg prop "$prop" --arg id "$id" --arg caught "${caught# }" --argjson suite $suite --argjson clean $clean --argjson patched $patched --arg pkg "$pkg" --arg run "$run" \
-  '{id:$id, breaks_property:$prop, source:"independent sub-agent given only the property text and a scratch worktree", confirmed:{suite_rc_with_patch:$suite, demo_rc_without_patch:$clean, demo_rc_with_patch:$patched}, demo:{package_dir:$pkg, run:$run}, caught_by_quick_checks:($caught|split(" ")), what_i_ran:"rsync copy of /repo; patch -p1; go build ./...; go test -count=1 -timeout 120s ./...; demo with and without patch; git -C /repo apply; vcheck -property <each> -no-evidence; git -C /repo checkout -- ."}' > $d/meta.json
+d=/verif/seeded/$id; mkdir -p $d; if [ "$src" != "$d" ]; then cp $src/patch.diff $d/; cp -r $src/demo_test.go $src/demo $d/ 2>/dev/null; cp $src/README.md $d/AGENT_README.md 2>/dev/null; fi
+ran="rsync copy of /repo; patch -p1; go build ./...; go test -count=1 -timeout 120s ./...; demo with and without patch; git -C /repo apply; vcheck -property <each> -no-evidence; git -C /repo checkout -- ."; [ -n "${SEED_SCRATCH:-}" ] && ran="rsync copy of /repo; patch -p1; go build ./...; go test -count=1 -timeout 120s ./...; demo with and without patch; vcheck -property <each> -no-evidence -repo <the patched copy>; copy removed"
+jq -n --arg ran "$ran" --arg prop "$prop" --arg id "$id" --arg caught "${caught# }" --argjson suite $suite --argjson clean $clean --argjson patched $patched --arg pkg "$pkg" --arg run "$run" \
+  '{id:$id, breaks_property:$prop, source:"independent sub-agent given only the property text and a scratch worktree", confirmed:{suite_rc_with_patch:$suite, demo_rc_without_patch:$clean, demo_rc_with_patch:$patched}, demo:{package_dir:$pkg, run:$run}, caught_by_quick_checks:($caught|split(" ")), what_i_ran:$ran}' > $d/meta.json
 rm -rf $S
